@@ -329,7 +329,7 @@ func (m *mon) c03() {
 
 // C05 — handles complete exactly when the work has finished
 func (m *mon) c05() {
-	if !m.props["C05"] {
+	if !m.props["C05"] && !m.props["C08"] && !m.props["C16"] {
 		return
 	}
 	for _, c := range m.e.calls {
@@ -395,6 +395,8 @@ func (m *mon) c05() {
 				}
 				if !fin && s.accepted {
 					m.add("C05", "batch-early-return", "batch b%d Wait returned at t=%d before item d%d finished", b.idx, c.tRet, s.data)
+					m.add("C08", "batch-early-return", "batch b%d Wait returned at t=%d before item d%d finished", b.idx, c.tRet, s.data)
+					m.add("C16", "not-closed-after-wait", "batch b%d Wait returned at t=%d while its accepted item d%d has not finished (its status is not Closed yet)", b.idx, c.tRet, s.data)
 				}
 			}
 		}
